@@ -5,7 +5,23 @@ use common::*;
 use serde_json::{json, Value};
 use std::path::{Path, PathBuf};
 
-pub const PRIORS: [&str; 6] = ["nothing", "dir-a", "dir-a/b", "dir-a/b/c", "file-at-a", "file-at-a/b"];
+pub const PRIORS: [&str; 13] = [
+    "nothing",
+    "dir-a",
+    "dir-a/b",
+    "dir-a/b/c",
+    "file-at-a",
+    "file-at-a/b",
+    // other things that are not directories in the way: each must make a successful return impossible
+    "fifo-at-a",
+    "socket-at-a",
+    "socket-at-a/b",
+    "symlink-to-file-at-a",
+    "dangling-symlink-at-a",
+    "chardev-symlink-at-a",
+    // a symlink to a directory IS a directory for path resolution: success allowed, nothing may be lost
+    "symlink-to-dir-at-a",
+];
 pub const LONG_PRIORS: [&str; 3] = ["nothing", "parents-exist", "all-exist"];
 
 #[derive(Clone, Debug)]
@@ -166,6 +182,30 @@ fn setup_grid(case_dir: &Path, prior: usize) {
             w("a/sentinel.txt", "sentinel in a");
             w("a/b", "i am a file called a/b");
         }
+        6 => {
+            let c = std::ffi::CString::new(p2b(&case_dir.join("a"))).unwrap();
+            assert_eq!(0, unsafe { libc::mkfifo(c.as_ptr(), 0o644) }, "setup mkfifo");
+        }
+        7 => {
+            // a bound unix socket leaves a socket node behind
+            drop(std::os::unix::net::UnixListener::bind(case_dir.join("a")).expect("setup bind"));
+        }
+        8 => {
+            d("a");
+            w("a/sentinel.txt", "sentinel in a");
+            drop(std::os::unix::net::UnixListener::bind(case_dir.join("a/b")).expect("setup bind"));
+        }
+        9 => {
+            w("target-file", "i am the target of a");
+            std::os::unix::fs::symlink("target-file", case_dir.join("a")).expect("setup symlink");
+        }
+        10 => std::os::unix::fs::symlink("no-such-target", case_dir.join("a")).expect("setup symlink"),
+        11 => std::os::unix::fs::symlink("/dev/null", case_dir.join("a")).expect("setup symlink"),
+        12 => {
+            d("target-dir");
+            w("target-dir/sentinel.txt", "sentinel in target-dir");
+            std::os::unix::fs::symlink("target-dir", case_dir.join("a")).expect("setup symlink");
+        }
         _ => unreachable!(),
     }
 }
@@ -277,7 +317,7 @@ pub fn run_case(block: &Path, c: &MkCase, r: &mut Report) {
                 acc.extend_from_slice(comp);
                 let p = join(&base, &acc);
                 let what = if acc.len() > 60 { format!("component prefix #{}", i + 1) } else { show_bytes(&acc) };
-                match std::fs::symlink_metadata(&p) {
+                match std::fs::metadata(&p) {
                     Ok(md) if md.is_dir() => {}
                     Ok(_) => {
                         bad = Some(("ok-but-file-in-the-way", format!("{what} is not a directory")));
